@@ -46,7 +46,12 @@ def run(ctx, rep, pid='C01'):
         julian.check(ctx, rep, 'R1.4')
     # Dhuhr is reported only if its clock-time conversion cannot fail (R11.4, R11.7)
     from . import shared, c11 as _c11
-    shared.include(ctx, rep, _c11.run, {'R11.3', 'R11.4', 'R11.7'}, why='every reported hour becomes a valid clock time (minutes from the same hour, wraps, bounded operands)')
+    # the property is stated for unrounded seconds: in mode `None` the converter must hand the seconds through untouched (the `None` row of
+    # C11's action table, for this property's own times); the other rows of the table are C11's alone
+    shared.include(ctx, rep, _c11.run, {'R11.1', 'R11.3', 'R11.4', 'R11.7'},
+                   keys=lambda key: key.count(':') >= 2 or key in ('None:Dhuhr',),
+                   why='every reported hour becomes a valid clock time (minutes from the same hour, wraps, bounded operands); '
+                       'unrounded seconds (mode None) are reported as computed')
 
     # the Julian Day of local midnight: the GMT offset enters as exactly -gmt/24 days (R20.1) - an offset quantised to minutes or
     # hours shifts the instant for which the transit is solved
